@@ -67,6 +67,7 @@ type scenario struct {
 	pad      int
 	tpls     []chainx.Tpl
 	depth    int
+	filter   func(h []int) bool // optional: histories outside it are not part of the plan
 	preamble [][]byte
 	preObs   *chainx.Obs
 	world    *chainx.World
@@ -463,6 +464,54 @@ func settingTemplates() []chainx.Tpl {
 	return append([]chainx.Tpl{set, use, rem}, chainx.TplByName("empty")...)
 }
 
+// lifecycleTemplates is the alphabet of plan E: candidate acc1 walks through
+// every (registered, voted-for) combination again and again - vote, reward
+// accrual, vote withdrawn, unregistered (the candidate record is dropped),
+// registered again, voted again - with idle blocks in between. Only effective
+// operations are part of the alphabet: a toggle is built from the current state.
+func lifecycleTemplates() []chainx.Tpl {
+	neo := nativehashes.NeoToken
+	one := func(tx *transaction.Transaction, err error) ([]*transaction.Transaction, error) {
+		if err != nil {
+			return nil, err
+		}
+		return []*transaction.Transaction{tx}, nil
+	}
+	registered := func(w *chainx.World) bool {
+		cs, _ := w.N.BC.GetEnrollments()
+		for _, c := range cs {
+			if c.Key.Equal(chainx.Acc(1).PublicKey()) {
+				return true
+			}
+		}
+		return false
+	}
+	votes := func(w *chainx.World) bool {
+		si := w.N.BC.GetStorageItem(-5, append([]byte{20}, chainx.Acc(1).ScriptHash().BytesBE()...))
+		if si == nil {
+			return false
+		}
+		st, err := state.NEOBalanceFromBytes(si)
+		return err == nil && st.VoteTo != nil
+	}
+	tv := chainx.Tpl{Name: "toggle-vote1", Build: func(w *chainx.World) ([]*transaction.Transaction, error) {
+		if votes(w) {
+			return one(w.N.CallTx([]neotest.Signer{chainx.Signer(1)}, neo, "vote", chainx.Acc(1).ScriptHash(), nil))
+		}
+		if !registered(w) {
+			return nil, fmt.Errorf("no candidate to vote for")
+		}
+		return one(w.N.CallTx([]neotest.Signer{chainx.Signer(1)}, neo, "vote", chainx.Acc(1).ScriptHash(), chainx.Acc(1).PublicKey().Bytes()))
+	}}
+	tr := chainx.Tpl{Name: "toggle-candidate1", Build: func(w *chainx.World) ([]*transaction.Transaction, error) {
+		if registered(w) {
+			return one(w.N.CallTx([]neotest.Signer{chainx.Signer(1)}, neo, "unregisterCandidate", chainx.Acc(1).PublicKey().Bytes()))
+		}
+		return one(w.N.MakeTx(chainx.CallScript(neo, "registerCandidate", chainx.Acc(1).PublicKey().Bytes()), []neotest.Signer{chainx.Signer(1)}, chainx.SysFee(1010_0000_0000)))
+	}}
+	return append([]chainx.Tpl{tv, tr}, chainx.TplByName("empty")...)
+}
+
 func flipVariants(depth int) []variant {
 	all := uint(1<<uint(depth+1)) - 1
 	alt := uint(0x55555555) & all
@@ -524,6 +573,25 @@ func TestCheck(t *testing.T) {
 				// plan D: a cached native setting set, re-set, removed and used, depth 4
 				scs = append(scs, &scenario{r: r, vs: flipVariants(4), fam: f, pad: p, tpls: settingTemplates(), depth: 4, tree: map[histKey]*treeNode{}})
 			}
+			if f.Name == "single" || (r.Thorough() && !f.Multi) {
+				// plan E: candidate life cycle (vote, reward, unvote, unregister = record dropped,
+				// register, vote again ...), depth 7 with at most 2 idle blocks (thorough: depth 8, any)
+				d := vk.Pick(r, 7, 8)
+				fv := flipVariants(d)
+				sc := &scenario{r: r, vs: []variant{fv[1], fv[3]}, fam: f, pad: p, tpls: lifecycleTemplates(), depth: d, tree: map[histKey]*treeNode{}}
+				if !r.Thorough() {
+					sc.filter = func(h []int) bool {
+						idle := 0
+						for _, k := range h {
+							if k == 2 {
+								idle++
+							}
+						}
+						return idle <= 2
+					}
+				}
+				scs = append(scs, sc)
+			}
 			if r.Thorough() {
 				// plan B: the quick alphabet, depth 3, the basic variants
 				scs = append(scs, &scenario{r: r, vs: variants(nil, 3), fam: f, pad: p, tpls: chainx.TplByName(tplNames(nil)...), depth: 3, tree: map[histKey]*treeNode{}})
@@ -544,7 +612,11 @@ func TestCheck(t *testing.T) {
 	var level [][]int
 	level = append(level, []int{})
 	var broken sync.Map
-	for d := 1; d <= 5; d++ {
+	maxDepth := 0
+	for _, sc := range scs {
+		maxDepth = max(maxDepth, sc.depth)
+	}
+	for d := 1; d <= maxDepth; d++ {
 		type job struct {
 			sc *scenario
 			h  []int
@@ -558,6 +630,9 @@ func TestCheck(t *testing.T) {
 			enumerate(len(sc.tpls), d, func(h []int) { hs = append(hs, append([]int{}, h...)) })
 			for _, h := range hs {
 				if _, bad := broken.Load(sc.fam.Name + fmt.Sprint(sc.pad) + string(key(h[:len(h)-1]))); bad {
+					continue
+				}
+				if sc.filter != nil && !sc.filter(h) {
 					continue
 				}
 				if d > 1 {
@@ -639,7 +714,7 @@ func TestCheck(t *testing.T) {
 		"traces_validated_against_impl": int(runs.Get()),
 		"histories":                     int(hist.Get()),
 		"distinct_state_roots":          roots.Len(),
-		"plans":                         "A: full alphabet of the tier, depth 2, all variants; B (thorough only): quick alphabet, depth 3, basic variants; C (single families): value flip/delete/re-create alphabet, depth 5, pruning/GC/latest-state and restart variants; D (single families): Policy whitelisted-method fee set / set again / removed / used, depth 4, same variants",
+		"plans":                         "A: full alphabet of the tier, depth 2, all variants; B (thorough only): quick alphabet, depth 3, basic variants; C (single families): value flip/delete/re-create alphabet, depth 5, pruning/GC/latest-state and restart variants; D (single families): Policy whitelisted-method fee set / set again / removed / used, depth 4, same variants; E (single families): candidate life cycle toggles (vote / registration) + idle blocks, depth 7 (<= 2 idle) / 8, restart variants",
 		"block_alphabet":                tplNames(r),
 		"families":                      []string{"single", "single-srih", "multi", "multi-srih"},
 		"preamble_pads":                 pads,
@@ -677,7 +752,7 @@ func replay(r *vk.Run, fams []family, depth int) {
 		os.Exit(3)
 	}
 	// names are stable across tiers; rebuild the alphabet from the recorded names
-	local := append(flipTemplates(), settingTemplates()...)
+	local := append(append(flipTemplates(), settingTemplates()...), lifecycleTemplates()...)
 	var tpls []chainx.Tpl
 	for _, name := range c.History {
 		found := false
